@@ -1018,6 +1018,18 @@ def run_exidx(ctx, case):
     if infos is None or len(infos) != len(exps):
         ctx.fail('exidx.infos|count', 'get_ehabi_infos() -> %r, expected %d index sections' % (infos, len(exps)), case)
         return
+    # Another ARM file of the opposite byte order is opened and queried while this one is still in use: everything below is read from
+    # objects that were created BEFORE the other file was opened (decoding state must be per file).
+    try:
+        odata, _r, oexps = build_exidx_elf(dict(case, le=not case['le']))
+        other = L['ELFFile'](io.BytesIO(odata))
+        oinfos = other.get_ehabi_infos() or []
+        for oi in oinfos[:2]:
+            if oi.num_entry():
+                oi.get_entry(0)
+        ctx.count('exidx.other-file-open')
+    except Exception as e:  # noqa   (the companion is judged when it is the case itself)
+        ctx.count('exidx.other-file-failed')
     for info, (name, xo, xents) in zip(infos, exps):
         try:
             hdr = (info.section_name(), info.section_offset(), info.num_entry())
